@@ -141,6 +141,7 @@ Build(s, pos, k) ==
     [] s = "ovf" -> Call("_+_", << Lit(I64MaxV), IntLit(1) >>)
     [] s = "nokey" -> Sel(MapE(<< >>), "k", << 107 >>, FALSE)
     [] s = "undecl" -> Id("undeclared_v")
+    [] s = "nofn" -> Call("nofn", << >>)                 \* a call of a function nobody registered
     [] s = "i0" -> IntLit(0)
     [] s = "i1" -> IntLit(1)
     [] s = "i2" -> IntLit(2)
@@ -200,6 +201,7 @@ Src(s, pos, k) ==
     [] s = "ovf" -> "(9223372036854775807 + 1)"
     [] s = "nokey" -> "{}.k"
     [] s = "undecl" -> "undeclared_v"
+    [] s = "nofn" -> "nofn()"
     [] s = "i0" -> "0"
     [] s = "i1" -> "1"
     [] s = "i2" -> "2"
